@@ -19,7 +19,7 @@ RULES = {
     'R4': 'cleanup: after the ring exists every path closes it and frees the record buffer; the descriptor is closed on every path; create_from_file closes the ring on every failure after qb_rb_open and opens it with CREATE (so close unlinks the files)',
     'R5': 'round trip: qb_rb_write_to_file and qb_rb_create_from_file agree on field order, sizes and the hash formula; the blackbox record written by _blackbox_vlogger is consumed field by field in the same order and sizes',
 }
-FLOORS = {'R1': 9, 'R2': 12, 'R3': 2, 'R4': 6, 'R5': 4}
+FLOORS = {'R1': 9, 'R2': 12, 'R3': 2, 'R4': 6, 'R5': 5}
 
 
 def run(ctx):
@@ -371,6 +371,31 @@ def r5(ctx):
         return sorted(out)
     ok = len(hw) == 1 and len(hr) == 1 and terms(hw[0].rhs) == terms(hr[0].rhs)
     ctx.check('R5', 'ring-header:hash-formula', ok, hw[0] if hw else w, 'writer and reader compute the hash from the same fields', 'hash formulas differ: %s vs %s' % (terms(hw[0].rhs) if hw else None, terms(hr[0].rhs) if hr else None))
+    # the reconstructed ring must have the writer's modulus: qb_rb_open_2 adds K to the requested size before rounding up to pages,
+    # so the reader has to ask for (word_size * 4) - K with the same K, or every index wraps at the wrong word count
+    o2 = prog.fn('qb_rb_open_2')
+    sizev = o2.params[1]['n']
+    adds = [ev for ev in o2.events('STORE') if estr(ev.lhs) == sizev and ev.d['op'] in ('+=', '++')]
+    if len(adds) != 1:
+        raise AnalysisBroken('qb_rb_open_2: the single "size += constant" was not found')
+    k_open = cval(unwrap(adds[0].rhs)) if adds[0].d['op'] == '+=' else 1
+    opens = list(r.calls('qb_rb_open'))
+    if len(opens) != 1:
+        raise AnalysisBroken('qb_rb_create_from_file: qb_rb_open calls = %d' % len(opens))
+    a = unwrap(opens[0].args[1])
+    dr = [ev for ev in r.calls('read') if field_is(ev.args[1], 'shared_data')]
+    ok = a.get('k') == 'bin' and a['op'] == '-' and cval(unwrap(a['r'])) == k_open and len(dr) == 1 and estr(a['l']) == estr(dr[0].args[2])
+    if ok:
+        srcs, entry = value_sources(r, a['l'], opens[0])
+        ws = role and [n for n, ro in role.items() if ro == 'word_size']
+        ok = not entry and bool(srcs) and all(any(n.get('k') == 'var' and ws and n['n'] == ws[0] for n in walk(x)) and
+                                              any(cval(n) == 4 for n in walk(x)) for x in srcs)
+    recognised = len(dr) == 1 and (estr(a) == estr(dr[0].args[2]) or (a.get('k') == 'bin' and a['op'] in ('-', '+') and estr(a['l']) == estr(dr[0].args[2]) and cval(unwrap(a['r'])) is not None))
+    if not ok and not recognised:
+        ctx.inconclusive('R5', 'ring-modulus-matches-writer', opens[0], 'the size given to qb_rb_open (%s) is not of the form <data bytes> - K' % estr(a))
+    else:
+        ctx.check('R5', 'ring-modulus-matches-writer', ok, opens[0], 'the ring is re-created with (word_size * 4) - %s bytes: qb_rb_open_2 adds the same %s back, so the modulus is the writer\'s word_size' % (k_open, k_open),
+                  'the ring is re-created with %s but qb_rb_open_2 adds %s before rounding to pages: the reloaded ring has a different word_size than the dump and indices wrap at the wrong place' % (estr(a), k_open))
     # blackbox record: sizes copied by the writer in order vs sizes consumed by the reader
     v = prog.fn('_blackbox_vlogger')
     wseq = []
